@@ -154,6 +154,18 @@ def triples():
     return out
 
 
+def registration():
+    """a second plugin registered / unregistered between runs (and in the middle of one)"""
+    out = []
+    steps = START + one_run() + [['register', 'P2'], ['call', 'A', 'reset'], settle()] + one_run() + \
+        [['unregister', 'P2'], ['call', 'A', 'reset', {'statement': 'B'}], settle()] + one_run() + [['sample']]
+    out.append(S(steps, dict(family='registration', case='between-runs')))
+    steps = START + [['call', 'A', 'run'], settle(0.4), ['register', 'P3'], ['child', 'return'], settle(0.4), ['child_reset'],
+                     ['call', 'A', 'reset'], settle(), ['unregister', 'P3']] + one_run() + [['sample']]
+    out.append(S(steps, dict(family='registration', case='mid-run')))
+    return out
+
+
 def relay_order():
     """the relay of the child's events is held inside a slow hook while later events queue up;
     the run then ends (normally or by a kill): everything queued must still be delivered before end-run"""
